@@ -18,6 +18,13 @@
 //	          secret decrypts under a configured fingerprint.
 //	cryption: handler sees the plaintext, response = base64(AES-ECB(PKCS7)).
 //
+// The oracles are per request, the WORKLOAD is not only request-at-a-time:
+// timetravel_test.go presents the same tokens to one gate instance while the jwt
+// clock moves across their validity window (the reference decides each step at
+// that step's time), groups_test.go puts several gates / route groups with
+// different keys, secrets and tolerances side by side and sends every credential
+// to every gate (the reference decides with what is configured for THAT gate).
+//
 // A panic of go-zero is recovered: on a request that must pass (or on any JWT
 // request, which must be answered 401 or run the handler) it is a violation
 // (C18/panic/...); on a malformed signed/encrypted request, about which the
